@@ -176,6 +176,20 @@ def make_coincident(rng, kind, scale, T):
     raise ValueError(kind)
 
 
+L_PRESENTATIONS = ["L_view", "L_readonly", "L_fortran"]     # + "shared": the same C-contiguous array object on every call
+ID_SPELLINGS = ("enum", "np.uint8", "np.int64")              # how phase / fabric / regime reach Mineral(...) and come back from get_regime
+
+
+def spell_id(kind, enum_cls, v):
+    """an ordinal in another legal spelling: the enum member (what fresh Minerals carry), numpy integers (what Mineral.load() /
+    model-output arrays yield)"""
+    if kind == "enum":
+        return enum_cls(int(v))
+    if kind and kind.startswith("np."):
+        return getattr(np, kind[3:])(int(v))
+    return int(v)
+
+
 PLANAR_FLOWS = ["planar_xz", "uniaxial_z", "planar", "uniaxial"]
 
 
@@ -229,6 +243,26 @@ def make_L(rng, kind, scale=1.0, period=None):
                 desc["mutated"] = True      # the library wrote into the caller's array
             return buf
         return get_shared, desc
+    if kind in L_PRESENTATIONS:
+        # the callable hands back caller-owned storage in another presentation: a non-contiguous VIEW of a table the caller keeps,
+        # a READ-ONLY array (an in-place write raises), a Fortran-ordered array; constant in time, strain-rate scale != 1
+        L0 = G.velocity_gradient(rng, ("general", "trace", "simple")[int(rng.integers(3))]) * scale * float(rng.uniform(0.3, 3.0))
+        desc = dict(kind=kind, pristine=L0.copy(), mutated=False)
+        if kind == "L_view":
+            table = np.zeros((4, 6, 6))
+            table[2, ::2, ::2] = L0
+            buf = table[2, ::2, ::2]
+        elif kind == "L_readonly":
+            buf = L0.copy()
+            buf.setflags(write=False)
+        else:
+            buf = np.asfortranarray(L0.copy())
+
+        def get_presented(t, x):
+            if not np.array_equal(buf, L0):
+                desc["mutated"] = True
+            return buf
+        return get_presented, desc
     if kind == "spin":          # purely rotational velocity gradient: zero strain rate, F still rotates
         w = rng.normal(size=3) * scale
         W = np.array([[0.0, -w[2], w[1]], [w[2], 0.0, -w[0]], [-w[1], w[0], 0.0]])
@@ -336,7 +370,9 @@ def build(sc, assemblage=None, fractions=None):
     import pydrex
     rng = np.random.default_rng(sc["seed"])
     O, f = init_texture(rng, sc["n"], sc["tkind"])
-    m = pydrex.Mineral(phase=sc["pair"][0], fabric=sc["pair"][1], regime=sc["regime"], n_grains=sc["n"],
+    sp = sc.get("spelling")
+    m = pydrex.Mineral(phase=spell_id(sp, pydrex.MineralPhase, sc["pair"][0]), fabric=spell_id(sp, pydrex.MineralFabric, sc["pair"][1]),
+                       regime=spell_id(sp, pydrex.DeformationRegime, sc["regime"]), n_grains=sc["n"],
                        fractions_init=f.copy(), orientations_init=O.copy())
     params = pydrex.DefaultParams().as_dict()
     params.update(sc["params"])
@@ -383,6 +419,15 @@ def eigmax_closed_form(D):
     e1 = q + 2 * p * np.cos(phi)
     e3 = q + 2 * p * np.cos(phi + 2 * np.pi / 3)
     return max(abs(e1), abs(e3))
+
+
+def regime_given(sc, t):
+    """what the get_regime callable of a scenario returns at time t: regime_at in the scenario's spelling of ordinals"""
+    r = regime_at(sc, t)
+    if sc.get("spelling"):
+        import pydrex
+        return spell_id(sc["spelling"], pydrex.DeformationRegime, r)
+    return r
 
 
 def regime_at(sc, t):
